@@ -6,5 +6,6 @@ CONSTANTS
   NotMode = "frame"
   IdxMode = "name"
   PopMode = "keep"
+  NilMode = "commaok"
 INVARIANTS StaticWFSound OpEqualsDen VisibleIsSuccessfulPath ConsistentRecall NotLeavesNoBindings AtomicAlternatives
 CHECK_DEADLOCK FALSE
